@@ -1,5 +1,7 @@
 //! vfeat: the predictor under one cargo-feature subset of vaporetto (C13).
-//! Reads `F <cfg> <model> <predict_tags 0|1> <hex text>` lines, answers `S<scores>;B<labels>[;K<n_tags>;G<tags>]`.
+//! Reads `F <cfg> <model> <predict_tags 0|1> <hex text>` lines, answers `S<scores>;B<labels>[;K<n_tags>;G<tags>]`,
+//! and `B <model>` lines (C07 under this feature set): hex of `to_vec()` of the model read back from its file bytes
+//! (through `read_slice`, and through `read`/`write` as well when `std` is compiled in).
 #[path = "../../harness/src/model.rs"]
 #[allow(dead_code)]
 mod model;
@@ -36,8 +38,38 @@ fn compiled_cfg() -> String {
     s
 }
 
+fn run_model_case(m: &str) -> String {
+    let Some(m) = model::AbsModel::parse(m) else { return "bad-case".into() };
+    let bytes = m.to_bytes();
+    let r = util::catch(|| {
+        let (model, rest) = vaporetto::Model::read_slice(&bytes).map_err(|_| "err:read_slice".to_string())?;
+        if !rest.is_empty() {
+            return Err("err:rest".to_string());
+        }
+        let v = model.to_vec().map_err(|_| "err:to_vec".to_string())?;
+        #[cfg(feature = "std")]
+        {
+            let m2 = vaporetto::Model::read(&bytes[..]).map_err(|_| "err:read".to_string())?;
+            let mut w = vec![];
+            m2.write(&mut w).map_err(|_| "err:write".to_string())?;
+            if w != v {
+                return Err(format!("err:read-write-differs-from-read_slice-to_vec:{}", util::hex(&w)));
+            }
+        }
+        Ok::<String, String>(util::hex(&v))
+    });
+    match r {
+        Ok(Ok(s)) => s,
+        Ok(Err(e)) => e,
+        Err(_) => "panic".into(),
+    }
+}
+
 fn run_case(line: &str) -> String {
     let t: Vec<&str> = line.split(' ').collect();
+    if let ["B", m, ..] = t.as_slice() {
+        return run_model_case(m);
+    }
     let ["F", _cfg, m, pt, h, ..] = t.as_slice() else { return "bad-case".into() };
     let Some(m) = model::AbsModel::parse(m) else { return "bad-case".into() };
     let Some(text) = util::unhexs(h) else { return "bad-case".into() };
